@@ -4,7 +4,7 @@
    bytes). The theorem says the record writer of version kw and the record reader of version kr
    realise layer V, for ALL legal histories, ALL pairs (kw, kr), ALL values and ALL suffixes. *)
 From Coq Require Import NArith ZArith List.
-From Desert Require Import Outcome IO Types Codec CodecWf History RecordRt RecordChunkedSpec EvolutionSpec Evolution.
+From Desert Require Import Outcome IO Types Codec CodecWf History RecordRt RecordChunkedSpec EvolutionSpec Evolution EvolutionTop.
 Import ListNotations.
 Open Scope N_scope.
 
@@ -29,6 +29,26 @@ Theorem C03_pairs :
       end.
 Proof. exact c03. Qed.
 
+(* the same at the real codecs: a record type whose version-kw declaration writes and whose
+   version-kr declaration reads, through enc / dec on a TNamed type, for field types that do not
+   touch the string table (no DeduplicatedString, no nested declarations: DESIGN 9.4) *)
+Theorem C03_pairs_top : forall f H kw kr nm vw st b st' s k,
+  legal H = true -> history_neutral H = true ->
+  (kw <= length (h_steps H))%nat -> (kr <= length (h_steps H))%nat ->
+  let Ew := [mkD nm (DRecord (decl_at H kw))] in
+  let Er := [mkD nm (DRecord (decl_at H kr))] in
+  wf_val (S f) Ew (TNamed 0) (VNode 0 vw) = true ->
+  enc (S f) Ew (TNamed 0) (VNode 0 vw) st = Ok (b, st') ->
+  exists f',
+  match expected H kw kr vw with
+  | Ok vs => exists rest st'',
+      dec a_ops f' Er (TNamed 0) (mkA (b ++ s) k st) = Ok (VNode 0 vs, mkA rest k st'') /\
+      (framed H kw kr = true -> rest = s)
+  | Err e => dec a_ops f' Er (TNamed 0) (mkA (b ++ s) k st) = Err e
+  | _ => False
+  end.
+Proof. exact c03_top. Qed.
+
 (* non-vacuity: a 5-step history that exercises every branch of `expected`; all 36 pairs computed
    by the model (value 1,"b",3 written by version 0, etc.) *)
 Example C03_example_history :
@@ -51,3 +71,4 @@ Example C03_example_history :
 Proof. vm_compute. repeat split. Qed.
 
 Print Assumptions C03_pairs.
+Print Assumptions C03_pairs_top.
